@@ -57,6 +57,7 @@ pub enum Slot {
     Timer(Option<HistogramTimer>),
     LTimer(Option<LocalHistogramTimer>),
     Families(Vec<MetricFamily>),
+    UVec(UserGaugeVec),
 }
 
 pub type Env = HashMap<String, Slot>;
@@ -173,6 +174,9 @@ pub fn family_from(v: &Value) -> MetricFamily {
             x.set_value(fparse(c));
             pm.set_gauge(x);
         }
+        if let Some(c) = m.get("untyped") {
+            crate::pm::set_untyped(&mut pm, fparse(c));
+        }
         if let Some(h) = m.get("hist") {
             let mut x = proto::Histogram::default();
             x.set_sample_count(h["count"].as_u64().unwrap());
@@ -229,6 +233,7 @@ fn collector_of(env: &Env, name: &str) -> Box<dyn Collector> {
         Slot::HVec(x) => Box::new(x.clone()),
         Slot::Custom(x) => Box::new(x.clone()),
         Slot::PGauge(x) => Box::new(x.clone()),
+        Slot::UVec(x) => Box::new(x.clone()),
         _ => panic!("harness: slot {} is not a collector", name),
     }
 }
@@ -268,6 +273,40 @@ impl std::io::Write for FailingWriter {
     }
 }
 
+/// accepts at most `k` bytes per write call (a pipe / socket / compressing writer)
+struct ChunkWriter {
+    k: usize,
+    buf: Vec<u8>,
+}
+impl std::io::Write for ChunkWriter {
+    fn write(&mut self, b: &[u8]) -> std::io::Result<usize> {
+        let n = b.len().min(self.k.max(1));
+        self.buf.extend_from_slice(&b[..n]);
+        Ok(n)
+    }
+    fn flush(&mut self) -> std::io::Result<()> {
+        Ok(())
+    }
+}
+
+/// a user-defined vector builder (the documented extension point MetricVec::create)
+#[derive(Clone)]
+pub struct UserGaugeBuilder;
+impl prometheus::core::MetricVecBuilder for UserGaugeBuilder {
+    type M = Gauge;
+    type P = Opts;
+    fn build<V: AsRef<str>>(&self, opts: &Opts, vals: &[V]) -> Result<Gauge> {
+        // a gauge whose variable labels are bound to `vals`: build it through a one-off GaugeVec of the same options
+        let names: Vec<&str> = opts.variable_labels.iter().map(|x| x.as_str()).collect();
+        let mut o = opts.clone();
+        o.variable_labels = vec![];
+        let v = GaugeVec::new(o, &names)?;
+        let vr: Vec<&str> = vals.iter().map(|x| x.as_ref()).collect();
+        v.get_metric_with_label_values(&vr)
+    }
+}
+pub type UserGaugeVec = prometheus::core::MetricVec<UserGaugeBuilder>;
+
 macro_rules! mk {
     ($env:expr, $c:expr, $variant:ident, $e:expr) => {{
         match $e {
@@ -304,6 +343,11 @@ pub fn call(env: &mut Env, c: &Value) -> Value {
                 "int_gauge_vec" => mk!(env, c, IGVec, IntGaugeVec::new(opts_of(&c["opts"]), &lr)),
                 _ => mk!(env, c, HVec, HistogramVec::new(hopts_of(&c["opts"]), &lr)),
             }
+        }
+        "user_gauge_vec" => {
+            let labels = strs(c.get("labels"));
+            let opts = opts_of(&c["opts"]).variable_labels(labels);
+            mk!(env, c, UVec, UserGaugeVec::create(proto::MetricType::GAUGE, UserGaugeBuilder, opts))
         }
         "pulling_gauge" => {
             let v = c.get("value").map(fparse).unwrap_or(0.0);
@@ -442,6 +486,7 @@ pub fn call(env: &mut Env, c: &Value) -> Value {
                 Slot::GVec(v) => { let v = v.clone(); vecop!(v, Gauge) }
                 Slot::IGVec(v) => { let v = v.clone(); vecop!(v, IntGauge) }
                 Slot::HVec(v) => { let v = v.clone(); vecop!(v, Hist) }
+                Slot::UVec(v) => { let v = v.clone(); vecop!(v, Gauge) }
                 _ => panic!("harness: not a vec"),
             }
         }
@@ -545,8 +590,50 @@ pub fn call(env: &mut Env, c: &Value) -> Value {
             ok0()
         }
         "drop" => {
-            env.remove(s(c, "obj"));
+            let slot = env.remove(s(c, "obj"));
+            if c.get("unwinding").and_then(|x| x.as_bool()).unwrap_or(false) {
+                // the value is dropped by stack unwinding of a panic that the process survives
+                let r = std::panic::catch_unwind(std::panic::AssertUnwindSafe(move || {
+                    let _owned = slot;
+                    std::panic::panic_any(0u8);
+                }));
+                let _ = r;
+            }
             ok0()
+        }
+        "fam_edit" => {
+            // in-place edit of stored families (after they may have been encoded once)
+            match env.get_mut(s(c, "fam")) {
+                Some(Slot::Families(fs)) => {
+                    let i = c.get("idx").and_then(|x| x.as_u64()).unwrap_or(0) as usize;
+                    if let Some(n) = c.get("rename").and_then(|x| x.as_str()) {
+                        fs[i].set_name(n.to_owned());
+                    }
+                    if let Some(h) = c.get("help").and_then(|x| x.as_str()) {
+                        fs[i].set_help(h.to_owned());
+                    }
+                    if let Some(l) = c.get("add_label").and_then(|x| x.as_array()) {
+                        for m in fs[i].mut_metric().iter_mut() {
+                            let mut ls = m.take_label();
+                            let mut lp = proto::LabelPair::default();
+                            lp.set_name(l[0].as_str().unwrap().to_owned());
+                            lp.set_value(l[1].as_str().unwrap().to_owned());
+                            ls.push(lp);
+                            m.set_label(ls);
+                        }
+                    }
+                    if let Some(m) = c.get("push_metric") {
+                        let extra = family_from(&json!({"name": "x", "type": "COUNTER", "metrics": [m]}));
+                        let mm = extra.get_metric()[0].clone();
+                        fs[i].mut_metric().push(mm);
+                    }
+                    if let Some(f) = c.get("push_family") {
+                        fs.push(family_from(f));
+                    }
+                    ok0()
+                }
+                _ => panic!("harness: no families"),
+            }
         }
         "lv_inc_by" | "lv_observe" | "lv_get" | "lv_remove" | "lv_flush_child" | "lv_reset_child" => {
             let vals = vals_of(c);
@@ -643,7 +730,11 @@ pub fn call(env: &mut Env, c: &Value) -> Value {
         },
         // ------------------------------------------------------------ encoders
         "text_encode" => {
-            let fams = families_of(env, c);
+            let owned;
+            let fams: &[MetricFamily] = match c.get("fam").and_then(|x| x.as_str()).and_then(|f| env.get(f)) {
+                Some(Slot::Families(f)) => f,
+                _ => { owned = families_of(env, c); &owned }
+            };
             let enc = TextEncoder::new();
             let prefix = c.get("prefix").and_then(|x| x.as_str()).unwrap_or("");
             let mode = c.get("mode").and_then(|x| x.as_str()).unwrap_or("encode");
@@ -670,17 +761,35 @@ pub fn call(env: &mut Env, c: &Value) -> Value {
                     let mut w = FailingWriter { after: c.get("after").and_then(|x| x.as_u64()).unwrap_or(0) as usize, n: 0 };
                     res_unit(enc.encode(&fams, &mut w))
                 }
+                "chunked" => {
+                    let mut w = ChunkWriter { k: c.get("after").and_then(|x| x.as_u64()).unwrap_or(1) as usize, buf: prefix.as_bytes().to_vec() };
+                    match enc.encode(&fams, &mut w) {
+                        Ok(()) => okv(json!({"hex": hex(&w.buf), "utf8": std::str::from_utf8(&w.buf).is_ok()})),
+                        Err(e) => err_json(&e),
+                    }
+                }
                 _ => panic!("harness: text mode"),
             }
         }
         #[cfg(feature = "protobuf")]
         "pb_encode" => {
-            let fams = families_of(env, c);
+            let owned;
+            let fams: &[MetricFamily] = match c.get("fam").and_then(|x| x.as_str()).and_then(|f| env.get(f)) {
+                Some(Slot::Families(f)) => f,
+                _ => { owned = families_of(env, c); &owned }
+            };
             let enc = ProtobufEncoder::new();
             let mode = c.get("mode").and_then(|x| x.as_str()).unwrap_or("encode");
             if mode == "failing_writer" {
                 let mut w = FailingWriter { after: c.get("after").and_then(|x| x.as_u64()).unwrap_or(0) as usize, n: 0 };
                 return res_unit(enc.encode(&fams, &mut w));
+            }
+            if mode == "chunked" {
+                let mut w = ChunkWriter { k: c.get("after").and_then(|x| x.as_u64()).unwrap_or(1) as usize, buf: vec![] };
+                return match enc.encode(&fams, &mut w) {
+                    Ok(()) => okv(json!({"hex": hex(&w.buf)})),
+                    Err(e) => err_json(&e),
+                };
             }
             let mut buf: Vec<u8> = vec![];
             match enc.encode(&fams, &mut buf) {
